@@ -32,16 +32,18 @@ LEVEL_NOTE = ("Trusted: Coq kernel, Go harness + Python glue. The model answers 
 THEOREMS = ["as_of_spec", "as_of_unresolved", "as_of_hash", "as_of_branch", "as_of_tag", "as_of_tilde", "walk_reachable", "revision_db_eq_as_of", "revision_db_spec",
             "visited_spec", "visited_nodup", "history_filter_spec", "hist_rows_at_spec", "hist_rows_same_schema", "oracle_model_obs"]
 RULE = ("script of 8-26 operations on one session: CREATE/DROP TABLE t1,t2 (pk + some of c1..c4), REPLACE/DELETE rows (pk 1..4, values NULL/0..9), ADD/DROP COLUMN, "
-        "dolt_commit -A, dolt_branch b1/b2, dolt_checkout, dolt_tag g1/g2, dolt_merge (--no-ff or default); 45% of the scripts end with uncommitted changes; "
+        "dolt_commit -A, dolt_branch b1/b2, dolt_checkout, dolt_tag g1/g2 and tags named like a branch (b1/b2/main, pointing at another commit than the branch), "
+        "REPLACE through `db/<branch>`.t, dolt_merge (--no-ff or default); 45% of the scripts end with uncommitted changes; "
         "then per table: AS OF / `db/rev` / history-filter for every commit hash, AS OF HEAD and every branch with 8 ancestor suffixes, `db/branch`, USE `db/rev`, "
         "tags, hash~n, and the unfiltered history table; non-trivial = at least 3 commits and some read returned rows; distinct by case JSON")
 ASSUMPTIONS = ["column types never change; tables and columns are never renamed", "the recorded history lists parents before children (checked by the oracle)"]
-REQUIRED_TAGS = ["asof-hash", "asof-branch", "asof-tag", "asof-anc-ok", "anc-out-of-range", "caret2-ok", "revdb-branch-clean", "revdb-branch-dirty", "revdb-tag",
+REQUIRED_TAGS = ["tag-shadowed-by-branch", "write-through-revdb", "asof-hash", "asof-branch", "asof-tag", "asof-anc-ok", "anc-out-of-range", "caret2-ok", "revdb-branch-clean", "revdb-branch-dirty", "revdb-tag",
                  "revdb-hash", "revdb-hash-anc-refused", "revdb-ref-anc", "hist-projected", "hist-table-absent-in-commit", "hist-no-current-table",
                  "hist-unreachable-commit", "hist-all", "merge-commit", "table-absent-asof", "dirty-at-read", "schema-changed"]
 
-BR = {"main": 0, "b1": 1, "b2": 2}
-TG = {"g1": 1, "g2": 2}
+# branch and tag names share one numbering: a tag may carry the name of a branch (different ref namespaces)
+BR = {"main": 0, "b1": 1, "b2": 2, "g1": 11, "g2": 12}
+TG = BR
 
 
 def _vals(rng):
@@ -81,7 +83,23 @@ def gen_one(rng):
         elif x < 0.75:
             ops.append({"k": "checkout", "b": rng.choice(branches)})
         elif x < 0.80:
-            ops.append({"k": "tag", "b": rng.choice(["g1", "g2"])})
+            y = rng.random()
+            if y < 0.45:
+                ops.append({"k": "tag", "b": rng.choice(["g1", "g2"])})
+            elif y < 0.75:
+                # a tag with the name of a branch (existing or created later), left behind by a later commit on that branch
+                b = rng.choice(["b1", "b2", "main"])
+                ops.append({"k": "tag", "b": b})
+                if b not in branches and rng.random() < 0.7:
+                    ops += [{"k": "put", "t": 1, "pk": rng.randint(1, 4), "vals": _vals(rng)}, {"k": "commit"}, {"k": "branch", "b": b}]
+                    branches.append(b)
+                elif b in branches and rng.random() < 0.7:
+                    ops += [{"k": "checkout", "b": b}, {"k": "put", "t": 1, "pk": rng.randint(1, 4), "vals": _vals(rng)}, {"k": "commit"}]
+            else:
+                # write through the revision database name
+                ops.append({"k": "putrev", "b": rng.choice(branches), "t": 1, "pk": rng.randint(1, 6), "vals": _vals(rng)})
+                if rng.random() < 0.5:
+                    ops.append({"k": "commit"})
         elif x < 0.92:
             if len(branches) > 1 and rng.random() < 0.85:
                 # diverge: a commit on another branch, one here, then (usually) merge it
@@ -111,9 +129,16 @@ def gen_one(rng):
     return {"ops": ops}
 
 
+# a tag and a branch of the same name at different commits (tag first, branch later, never checked out), read and written through `db/<name>`
+CASE_SAME_NAME = {"ops": [{"k": "create", "t": 1, "cols": [1]}, {"k": "put", "t": 1, "pk": 1, "vals": [10, 0, 0, 0]}, {"k": "commit"}, {"k": "tag", "b": "b1"},
+                          {"k": "put", "t": 1, "pk": 2, "vals": [20, 0, 0, 0]}, {"k": "commit"}, {"k": "branch", "b": "b1"},
+                          {"k": "put", "t": 1, "pk": 3, "vals": [30, 0, 0, 0]}, {"k": "commit"}]}
+CASE_SAME_NAME_WRITE = {"ops": CASE_SAME_NAME["ops"] + [{"k": "putrev", "b": "b1", "t": 1, "pk": 4, "vals": [40, 0, 0, 0]}]}
+
+
 def gen_cases(rng, tier):
-    n = 50 if tier == "quick" else 1500
-    return [gen_one(rng) for _ in range(n)]
+    n = 48 if tier == "quick" else 1500
+    return [CASE_SAME_NAME, CASE_SAME_NAME_WRITE] + [gen_one(rng) for _ in range(n)]
 
 
 # ---- Coq printing ----
@@ -218,6 +243,15 @@ def classify(case, out):
             schemas.add(tuple(tb["cols"]))
     if len(schemas) > 1:
         tags.add("schema-changed")
+    for g in o["tags"]:
+        if g["name"] in br and br[g["name"]]["head"] != g["at"]:
+            tags.add("tag-shadowed-by-branch")
+            b = br[g["name"]]
+            if b["working"] == commits[b["head"]]["tabs"]:
+                tags.add("tag-shadowed-by-clean-branch")
+    for op, st in zip(case["ops"], o["steps"]):
+        if op["k"] == "putrev" and st == "":
+            tags.add("write-through-revdb")
     for q in o["queries"]:
         k, base, anc, ok = q["kind"], q["base"], q["anc"], not q["err"]
         msg = q.get("msg", "")
